@@ -1,10 +1,14 @@
 #!/bin/sh
-# usage: tools/mutant_run.sh <patch> <Cxx> [<Cyy> ...]   -- applies the patch to /repo, runs the quick checks, reverts.
+# usage: tools/mutant_run.sh <patch> <Cxx> [<Cyy> ...]   -- applies the patch to the repository ($VERIF_REPO, default /repo), runs
+# the quick checks of this framework copy against it, reverts.  With VERIF_REPO set to a scratch worktree and this script
+# called from a scratch clone of /verif, a matrix run leaves /repo and /verif alone.
 patch="$1"; shift
-cd /repo || exit 2
+REPO="${VERIF_REPO:-/repo}"
+ROOT="$(cd "$(dirname "$0")/.." && pwd)"
+cd "$REPO" || exit 2
 if ! git apply --check "$patch" 2>/dev/null; then echo "PATCH-DOES-NOT-APPLY $patch"; exit 2; fi
 git apply "$patch"
-cd /verif
+cd "$ROOT"
 for c in "$@"; do
   out=$(./check "$c" --tier quick 2>&1); rc=$?
   echo "== $c rc=$rc $(echo "$out" | grep -c '^VIOLATION') violation line(s)"
@@ -12,5 +16,5 @@ for c in "$@"; do
   for f in $(echo "$out" | grep '^VIOLATION' | head -2 | sed 's/.*replay=\([^ ]*\).*/\1/'); do python3 -c "
 import json,sys; r=json.load(open('$f')); print('   ', r.get('signature'), '|', str(r.get('what'))[:160])"; done
 done
-cd /repo && git checkout -- . && git clean -fdq -- . >/dev/null 2>&1; /verif/tools/bin/translate >/dev/null; python3 /verif/tools/ontology/onto.py >/dev/null
+cd "$REPO" && git checkout -- . && git clean -fdq -- . >/dev/null 2>&1; VERIF_REPO="$REPO" VERIF_OUT="$ROOT" "$ROOT/tools/bin/translate" -repo "$REPO" -out "$ROOT" >/dev/null; VERIF_OUT="$ROOT" python3 "$ROOT/tools/ontology/onto.py" >/dev/null
 git status --short | head -3
